@@ -255,6 +255,14 @@ def _note_parts(tier):
     out.append(("gaps_divs16", lambda: G.build_part("P", 16, notes=[("a", 3, 21, "C", None, 4, 1, 1), ("b", 40, 50, "D", None, 4, 1, 1), ("c", 100, 27, "E", None, 4, 1, 1)], measures="auto")))
     out.append(("divisions_change_at_barline_under_held_note", lambda: G.build_part("P", 4, quarter_changes=[(16, 8)], notes=[("a", 12, 20, "C", None, 4, 1, 1), ("b", 0, 12, "E", None, 4, 1, 1), ("c", 32, 16, "G", None, 4, 1, 1)],
                                                                                        measures=[(0, 16), (16, 48)])))
+    def late_then_early():
+        # divisions set for a later stretch first and for the opening afterwards, on a part that already has its time points
+        p = G.build_part("P", 4, notes=[("a", 0, 16, "C", None, 4, 1, 1), ("b", 16, 16, "D", None, 4, 1, 1), ("c", 32, 16, "E", None, 4, 1, 1), ("d", 48, 32, "F", None, 4, 1, 1)],
+                         measures=[(0, 16), (16, 32), (32, 64), (64, 96)])
+        p.set_quarter_duration(32, 8)
+        p.set_quarter_duration(0, 4)
+        return p
+    out.append(("divisions_set_for_a_later_stretch_first", late_then_early))
     # a voice entering after a silence whose length is not one notated value (5 sixteenths; 17 thirty-seconds)
     out.append(("voice_enters_after_a_composite_silence", lambda: G.build_part("P", 8, notes=[("a", 10, 22, "C", None, 4, 1, 1), ("b", 32, 32, "D", None, 4, 1, 1), ("c", 81, 15, "E", None, 4, 1, 1), ("lo", 0, 96, "C", None, 3, 2, 1)],
                                                                               measures=[(0, 32), (32, 64), (64, 96)])))
